@@ -125,6 +125,32 @@ package location
 //@   loop 0: modifies nothing
 //@   loop 0: invariant [idx] -1 <= $idx && $idx < len(rewrites)
 
+// the locations built from the configuration: name, upstream, prefixes, rewrites and hosts are copied as configured
+//@ func convertConfigs(configs []config.LocationConfig) (locations []Location)
+//@   nopanic
+//@   modifies $hdr
+//@   ensures [len] len(locations) == len(configs)
+//@   ensures [fields] forall i int :: 0 <= i && i < len(configs) ==> locations[i].Name == configs[i].Name && locations[i].Upstream == configs[i].Upstream
+//@                      && locations[i].Prefixes == configs[i].Prefixes && locations[i].Rewrites == configs[i].Rewrites && locations[i].Hosts == configs[i].Hosts
+//@   ensures [memo] forall i int :: 0 <= i && i < len(locations) ==> elemaddr(locations, i).priority.v == 0
+//@   loop 0: modifies $hdr
+//@   loop 0: invariant [idx] -1 <= $idx && $idx < len(configs) && len(locations) == $idx + 1 && fresh(locations)
+//@   loop 0: invariant [memo] forall i int :: 0 <= i && i <= $idx ==> elemaddr(locations, i).priority.v == 0
+//@   loop 0: invariant [fields] forall i int :: 0 <= i && i <= $idx ==> locations[i].Name == configs[i].Name && locations[i].Upstream == configs[i].Upstream
+//@                      && locations[i].Prefixes == configs[i].Prefixes && locations[i].Rewrites == configs[i].Rewrites && locations[i].Hosts == configs[i].Hosts
+//@   loop 1: modifies nothing
+//@   loop 1: invariant [idx] -1 <= $idx && $idx < len(item.QueryStrings) && -1 <= $idx0 && $idx0 < len(configs) && len(locations) == $idx0 + 1 && fresh(locations)
+//@   loop 1: invariant [outer-memo] forall i int :: 0 <= i && i <= $idx0 ==> elemaddr(locations, i).priority.v == 0
+//@   loop 1: invariant [outer-fields] forall i int :: 0 <= i && i <= $idx0 ==> locations[i].Name == configs[i].Name && locations[i].Upstream == configs[i].Upstream
+//@                      && locations[i].Prefixes == configs[i].Prefixes && locations[i].Rewrites == configs[i].Rewrites && locations[i].Hosts == configs[i].Hosts
+//@   loop 2: modifies $hdr
+//@   loop 2: invariant [idx] -1 <= $idx && $idx < len(arr) && h != nil && fresh(h)
+
+// applying the location section of a configuration: the routing list is rebuilt from all configured locations
+//@ func Reset(configs []config.LocationConfig)
+//@   requires [unlocked] !anyheld(defaultLocations.mutex)
+//@   modifies defaultLocations.locations, cells(*Location), atomic.Int32::v, Location::URLRewriter, $hdr
+
 // ---- request/response decoration (C15) ----------------------------------------------------
 
 //@ axiom [default-locations]: defaultLocations != nil
